@@ -170,8 +170,31 @@ func (w *World) Roles() *Roles {
 		})
 		return found
 	}
-	r.ServeTunnel = pick("ServeTunnel", "serveTunnel", func(f *ssa.Function) bool { return f.Signature.Recv() == nil && allocates(f, a.Sv) })
-	r.NewTunnelChannel = pick("NewTunnelChannel", "newTunnelChannel", func(f *ssa.Function) bool { return f.Signature.Recv() == nil && allocates(f, a.Ch) })
+	// the endpoint's literal may have been moved into a constructor used at one place by the function that plays the role
+	// (serveTunnel -> newTunnelServer): the role belongs to the outermost plain function of that chain
+	climbCtor := func(fn *ssa.Function) *ssa.Function {
+		for i := 0; fn != nil && i < 3; i++ {
+			if obj := fn.Object(); obj == nil || obj.Exported() || fn.Signature.Recv() != nil {
+				break
+			}
+			sites := w.callSitesOf(fn)
+			if len(sites) != 1 {
+				break
+			}
+			call, isCall := sites[0].(*ssa.Call)
+			if !isCall || staticCallee(call) == nil {
+				break
+			}
+			up := w.origFn(call.Parent())
+			if up.Parent() != nil || up.Signature.Recv() != nil || up.Object() == nil || up.Object().Exported() {
+				break
+			}
+			fn = up
+		}
+		return fn
+	}
+	r.ServeTunnel = climbCtor(pick("ServeTunnel", "serveTunnel", func(f *ssa.Function) bool { return f.Signature.Recv() == nil && allocates(f, a.Sv) }))
+	r.NewTunnelChannel = climbCtor(pick("NewTunnelChannel", "newTunnelChannel", func(f *ssa.Function) bool { return f.Signature.Recv() == nil && allocates(f, a.Ch) }))
 	callsFn := func(f, callee *ssa.Function) bool {
 		if callee == nil {
 			return false
